@@ -20,6 +20,17 @@ def main():
         tier = "quick"
     seed = int(os.environ.get("VERIF_SEED", "1") or 1)
     pid = a.pid.upper()
+    import shutil
+    import tempfile
+    scratch = tempfile.mkdtemp(prefix="verif_run_", dir="/dev/shm" if os.path.isdir("/dev/shm") else None)
+    os.environ["VERIF_SCRATCH"] = scratch
+    try:
+        return _main(a, pid, tier, seed)
+    finally:
+        shutil.rmtree(scratch, ignore_errors=True)
+
+
+def _main(a, pid, tier, seed):
     try:
         lib.use_repo_sources()
         import props
